@@ -58,7 +58,12 @@ impl<'de> Visitor<'de> for RoomNetworkVisitor {
         while let Some((key, value)) = access.next_entry::<String, JsonValue>()? {
             match key.as_str() {
                 "include_all_networks" => {
-                    include_all_networks = value.as_bool().unwrap_or(false);
+                    // In a query string the value is a string.
+                    include_all_networks = match &value {
+                        JsonValue::Bool(b) => *b,
+                        JsonValue::String(s) => s == "true",
+                        _ => false,
+                    };
                 }
                 "third_party_instance_id" => {
                     third_party_instance_id = value.as_str().map(|v| v.to_owned());
